@@ -13,6 +13,7 @@ import (
 	"math/big"
 	"net"
 	"sync"
+	"sync/atomic"
 	"time"
 
 	"github.com/bluenviron/gortsplib/v5/pkg/base"
@@ -158,6 +159,7 @@ type wire struct {
 	alter func(unit []byte) [][]byte
 	// counters
 	injected int
+	reads    atomic.Int64 // datagrams read from a socket whose inbound side this wire counts
 }
 
 func (w *wire) record(b []byte) {
@@ -210,7 +212,7 @@ func (t *tapPacketConn) WriteTo(b []byte, addr net.Addr) (int, error) {
 func (t *tapPacketConn) ReadFrom(b []byte) (int, net.Addr, error) {
 	n, a, err := t.UDPConn.ReadFrom(b)
 	if err == nil && t.in != nil {
-		t.in.record(b[:n])
+		t.in.reads.Add(1)
 	}
 	return n, a, err
 }
